@@ -148,13 +148,21 @@ class Ctx:
             return self.vh
         env = dict(os.environ)
         env.update(GOENV)
+        hdir = HARNESS
+        if os.path.realpath(REPO) != "/repo":
+            # mutation testing against a scratch worktree: build a private copy of the harness module
+            # whose replace directive points at that tree (VERIF_REPO=<dir>)
+            hdir = os.path.join(self.work, "harness")
+            shutil.copytree(HARNESS, hdir, dirs_exist_ok=True)
+            gm = open(os.path.join(hdir, "go.mod")).read().replace("=> /repo", "=> " + os.path.realpath(REPO))
+            open(os.path.join(hdir, "go.mod"), "w").write(gm)
         try:
-            shutil.copy(os.path.join(REPO, "go.sum"), os.path.join(HARNESS, "go.sum"))
+            shutil.copy(os.path.join(REPO, "go.sum"), os.path.join(hdir, "go.sum"))
         except Exception as e:
             raise Inconclusive("cannot copy go.sum: %s" % e)
         out = os.path.join(self.work, "vh")
         t = time.time()
-        p = subprocess.run(["go1.26", "build", "-tags", "verif", "-o", out, "./cmd/" + cmd], cwd=HARNESS, env=env,
+        p = subprocess.run(["go1.26", "build", "-tags", "verif", "-o", out, "./cmd/" + cmd], cwd=hdir, env=env,
                            stdout=subprocess.PIPE, stderr=subprocess.STDOUT, text=True)
         if p.returncode != 0:
             log(p.stdout[-4000:])
